@@ -176,6 +176,43 @@ def run(ctx):
                           "+10:59:60.00)" % m.group(0),
                           {"slice": sorted(sl_names)}, c)
     ctx.floor("C17-R4", n4, 2, "fixed-decimal sexagesimal fields")
+    # hours < 24: the reduction modulo 24 h must act on the rounded total
+    hms = prog.func("angle_tools.dec2hms")
+    rounded = set()
+    for s in walk_no_nested(hms.node):
+        if isinstance(s, ast.Assign) and any(
+                isinstance(x, ast.Call) and norm(x.func) in (
+                    "round", "np.round", "np.rint") for x in ast.walk(s.value)):
+            for t in s.targets:
+                rounded |= names_in(t)
+    changed = True
+    while changed:
+        changed = False
+        for s in walk_no_nested(hms.node):
+            if isinstance(s, ast.Assign) and names_in(s.value) & rounded:
+                for t in s.targets:
+                    for nm in names_in(t):
+                        if nm not in rounded:
+                            rounded.add(nm)
+                            changed = True
+    mods = []
+    for s in walk_no_nested(hms.node):
+        if isinstance(s, ast.AugAssign) and isinstance(s.op, ast.Mod):
+            mods.append((s, s.target, s.value))
+        if isinstance(s, ast.BinOp) and isinstance(s.op, ast.Mod):
+            mods.append((s, s.left, s.right))
+    ok24 = False
+    for s, operand, modulus in mods:
+        mv = prog.const_value(mod, modulus)
+        if mv in (24, 24 * 3600 * 100, 24 * 3600, 24 * 60) and \
+                names_in(operand) & rounded:
+            ok24 = True
+    ctx.check("C17-R4", hms, "hours reduced modulo 24 after rounding", ok24,
+              "an RA within half a printed unit below 360 deg rounds up to "
+              "24:00:00.00 unless the hours (or the rounded total) are "
+              "reduced modulo 24 h AFTER the rounding; a wrap applied to "
+              "the unrounded float does not help", {"rounded": sorted(rounded)},
+              hms.node)
     # ---------------------------------------------------------------- R5
     ctx.rule("C17-R5", "parse/format agreement: ':' separators, sign taken "
              "from a leading '-', RA = hours*15")
